@@ -95,9 +95,48 @@ func block(s *chainsim.Sim, txs ...[]byte) []abci.ResponseDeliverTx {
 }
 
 // newSim builds a fresh chain (chainsim resets the process-global validators-by-chain cache
-// and provides the node-local session cache the claim handler reads).
+// and provides the node-local session cache the claim handler reads).  The session cache of
+// a previous chain of this process is emptied: a fresh node has not served any dispatch.
 func newSim(cfg chainsim.Config) *chainsim.Sim {
-	return chainsim.New(cfg)
+	s := chainsim.New(cfg)
+	if pc.GlobalSessionCache != nil {
+		pc.ClearSessionCache(pc.GlobalSessionCache)
+	}
+	return s
+}
+
+// dispatchPairs are the (application, chain) pairs a dispatching node is asked about.
+var dispatchPairs = [][2]interface{}{{kApp1, "0001"}, {kApp2, "0002"}}
+
+// dispatch plays the node's OFF-CHAIN part: a client asks for its session (RPC
+// /v1/client/dispatch -> PocketCoreApp.HandleDispatch).  The session of the committed height
+// is computed and stored in the node-local session cache, which ValidateClaim consults
+// before it recomputes the session.  Consensus must not depend on it.
+func dispatch(s *chainsim.Sim, app int, chain string) (cached bool) {
+	defer func() {
+		if r := recover(); r != nil {
+			cached = false
+		}
+	}()
+	_, err := s.App.HandleDispatch(pc.SessionHeader{ApplicationPubKey: s.Keys[app].PublicKey().RawString(), Chain: chain, SessionBlockHeight: 1})
+	return err == nil
+}
+
+func dispatchAll(s *chainsim.Sim) {
+	if s.Height < 1 {
+		return
+	}
+	for _, p := range dispatchPairs {
+		dispatch(s, p[0].(int), p[1].(string))
+	}
+}
+
+// blockD runs one empty block and, when disp, serves dispatches after the commit.
+func blockD(s *chainsim.Sim, disp bool) {
+	block(s)
+	if disp {
+		dispatchAll(s)
+	}
 }
 
 // ---- projection of the fields this module owns (chainsim's projection + claim roots)
@@ -247,6 +286,7 @@ func classOf(r abci.ResponseDeliverTx) string {
 // ---- recorder: one NDJSON event per ABCI call with the focus state (plus digest)
 
 type recorder struct {
+	disp    bool // serve dispatches after every commit (and log them)
 	s       *chainsim.Sim
 	b       *evBook
 	w       *hx.TraceWriter
@@ -325,6 +365,18 @@ func (r *recorder) endBlock() {
 func (r *recorder) commit() {
 	r.s.Commit()
 	r.emit(map[string]interface{}{"ev": "Commit"})
+	if r.disp {
+		r.dispatchAll()
+	}
+}
+
+// dispatchAll serves the dispatches and logs them (an off-chain event: the logged state must
+// be the state of the previous event).
+func (r *recorder) dispatchAll() {
+	for _, p := range dispatchPairs {
+		ok := dispatch(r.s, p[0].(int), p[1].(string))
+		r.emit(map[string]interface{}{"ev": "dispatch", "app": r.s.Name(r.s.Addr(p[0].(int))), "chain": p[1], "cached": ok})
+	}
 }
 
 func (r *recorder) emptyBlock() {
